@@ -431,7 +431,23 @@ func c17Overlap(c *Ctx, a *sketchAnchors) {
 					continue
 				}
 				ct := tcl.Of(iff.Cond)
-				mentionsBound := (ct.isBin("<") || ct.isBin("<=")) && (isMethodCall(ct.Args[0], "LowerBound") || isMethodCall(ct.Args[1], "LowerBound"))
+				isBound := func(t *Term) bool {
+					if isMethodCall(t, "LowerBound") {
+						return true
+					}
+					// a bound carried from one iteration to the next: every incoming value is a LowerBound(...)
+					if t.Op == "phi" {
+						es := tcl.PhiEdges(t)
+						for _, e := range es {
+							if !isMethodCall(e, "LowerBound") {
+								return false
+							}
+						}
+						return len(es) > 0
+					}
+					return false
+				}
+				mentionsBound := (ct.isBin("<") || ct.isBin("<=")) && (isBound(ct.Args[0]) || isBound(ct.Args[1]))
 				if !mentionsBound {
 					badExit = "the loop over target bins is left on " + tcl.Of(iff.Cond).Key() + " (not its continuation test)"
 				}
